@@ -238,6 +238,70 @@ def compare_attrs(identity, exp, got, labelmsm, checks):
     return bad
 
 
+def check_helpers(m):
+    """parse_msm / parse_4076_201 versus the message's own attributes"""
+    from pyrtcm.rtcmhelpers import parse_msm, parse_4076_201
+    tb = ol.tables()
+    bad = []
+    ident = m.identity
+    pub = public_attrs(m)
+    try:
+        r = parse_msm(m)
+    except Exception as e:  # noqa
+        return [f"parse_msm raised {type(e).__name__}: {e}"]
+    try:
+        r2 = parse_4076_201(m)
+    except Exception as e:  # noqa
+        return [f"parse_4076_201 raised {type(e).__name__}: {e}"]
+    if ident in tb['msm']:
+        if not (isinstance(r, tuple) and len(r) == 3):
+            return [f"parse_msm returned {r!r}"[:100]]
+        meta, sats, cells = r
+        ep = msm_spec()['epoch_field'][ident[:3]]
+        want = {'identity': ident, 'station': pub.get('DF003'), 'epoch': pub.get(ep), 'sats': pub.get(tb['NSAT']), 'cells': pub.get(tb['NCELL'])}
+        for k, v in want.items():
+            if meta.get(k) != v:
+                bad.append(f"meta[{k}]={meta.get(k)!r}, message has {v!r}")
+        for arr, n, nm in ((sats, pub[tb['NSAT']], 'satellite'), (cells, pub[tb['NCELL']], 'cell')):
+            if len(arr) != n:
+                bad.append(f"{len(arr)} {nm} entries, expected {n}")
+                continue
+            for i, ent in enumerate(arr, 1):
+                for k, v in ent.items():
+                    if pub.get(f"{k}_{i:02d}", object()) != v:
+                        bad.append(f"{nm} {i}: {k}={v!r} but attribute {k}_{i:02d}={pub.get(f'{k}_{i:02d}')!r}")
+        cellbases = ("CELLPRN", "CELLSIG", "DF400", "DF401", "DF402", "DF403", "DF404", "DF405", "DF406", "DF407", "DF408", "DF420")
+        for k in pub:
+            if "_" in k and k.rsplit("_", 1)[1].isdigit() and len(k.rsplit("_", 1)[1]) >= 2 and not k.startswith("DF001_"):
+                base, idx = k.rsplit("_", 1)
+                arr = cells if base in cellbases else sats
+                if int(idx) > len(arr) or base not in arr[int(idx) - 1]:
+                    bad.append(f"attribute {k} missing from the arrays")
+    elif r is not None:
+        bad.append(f"parse_msm returned a value for {ident}")
+    if ident == "4076_201":
+        if not isinstance(r2, dict):
+            return bad + [f"parse_4076_201 returned {type(r2).__name__}"]
+        layers = pub["IDF035"] + 1
+        if len(r2) != layers:
+            bad.append(f"{len(r2)} layers, expected {layers}")
+        for li, (key, ent) in enumerate(sorted(r2.items())):
+            L = li + 1
+            if ent.get("Layer Height") != pub.get(f"IDF036_{L:02d}"):
+                bad.append(f"layer {L}: height")
+            for field, cname in (("IDF039", "Cosine Coefficients"), ("IDF040", "Sine Coefficients")):
+                exp = []
+                i = 1
+                while f"{field}_{L:02d}_{i:02d}" in pub:
+                    exp.append(pub[f"{field}_{L:02d}_{i:02d}"])
+                    i += 1
+                if ent.get(cname) != exp:
+                    bad.append(f"layer {L}: {cname} differ from the {len(exp)} decoded {field} attributes in index order")
+    elif r2 is not None:
+        bad.append(f"parse_4076_201 returned a value for {ident}")
+    return bad
+
+
 def replay_construct(case):
     from pyrtcm.rtcmmessage import RTCMMessage
     payload = bytes.fromhex(case['payload'])
@@ -247,7 +311,11 @@ def replay_construct(case):
     hopts = case.get('history_opts') or []
     for hi, h in enumerate(case.get('history', [])):    # messages parsed earlier in the same process
         try:
-            RTCMMessage(payload=bytes.fromhex(h), labelmsm=hopts[hi] if hi < len(hopts) else label)
+            hm = RTCMMessage(payload=bytes.fromhex(h), labelmsm=hopts[hi] if hi < len(hopts) else label)
+            if case.get('history_helpers'):
+                from pyrtcm.rtcmhelpers import parse_msm, parse_4076_201
+                parse_msm(hm)
+                parse_4076_201(hm)
         except Exception:  # noqa
             pass
     try:
@@ -291,6 +359,8 @@ def replay_construct(case):
             failed.append(f"ismsm false for MSM number {num}")
         if not (1070 <= num <= 1229) and m.ismsm is not False:
             failed.append(f"ismsm true for number {num}")
+    if 'helpers' in checks and m is not None:
+        failed += ["helpers: " + x for x in check_helpers(m)[:4]]
     if 'immutable_flag' in checks and m is not None:
         if m.__dict__.get('_immutable') is not True:
             failed.append("message not immutable after construction")
